@@ -632,12 +632,15 @@ def Mem.rdbOffered (s : Mem) : Option MRdb :=
   | some r => if r.replayable then some r else none
   | none => none
 
-/-- `inRangeLocked` -/
+/-- `inRangeLocked` (a3509d3: log coverage first; a replayable snapshot makes the
+    offsets before it valid, and its own offset only while no log segment is held —
+    once the collector dropped the log that starts there, the position a completed
+    replay stores must be asked from the source) -/
 def Mem.inRange (s : Mem) (off : Int) : Bool :=
+  (if off < 0 then false else (s.indexAof off.toNat).isSome) ||
   (match s.rdbOffered with
-   | some r => off ≤ r.left
-   | none => false) ||
-  (if off < 0 then false else (s.indexAof off.toNat).isSome)
+   | some r => off ≤ r.left && (off < r.left || s.segs.isEmpty)
+   | none => false)
 
 /-- `rangeLocked` -/
 def Mem.range (s : Mem) : Int × Int :=
